@@ -167,6 +167,7 @@ func vfC15Render(r *vfgen.MsgRecipe) any {
 
 func TestVerifC15Pack(t *testing.T) {
 	defer vfstat.Flush()
+	vfstat.Quiet()
 	const U = "C15.pack"
 	rapid.Check(t, func(rt *rapid.T) {
 		r := vfgen.GenMsgRecipe(rt, true)
@@ -208,6 +209,7 @@ func seenIn(cl []string, s string) bool {
 // PackClone result must be independent of later packs.
 func TestVerifC15Sequence(t *testing.T) {
 	defer vfstat.Flush()
+	vfstat.Quiet()
 	const U = "C15.sequence"
 	rapid.Check(t, func(rt *rapid.T) {
 		n := rapid.IntRange(2, 6).Draw(rt, "nmsgs")
@@ -268,6 +270,7 @@ func TestVerifC15Sequence(t *testing.T) {
 // × follow-up message): the message after a name-heavy one must pack as the library does.
 func TestVerifC15Dictionary(t *testing.T) {
 	defer vfstat.Flush()
+	vfstat.Quiet()
 	const U = "C15.dictionary"
 	runtime.LockOSThread()
 	defer runtime.UnlockOSThread()
@@ -315,6 +318,7 @@ func TestVerifC15Dictionary(t *testing.T) {
 // was borrowed) so the release paths are exercised.
 func TestVerifC15Concurrent(t *testing.T) {
 	defer vfstat.Flush()
+	vfstat.Quiet()
 	const U = "C15.concurrent"
 	rapid.Check(t, func(rt *rapid.T) {
 		nm := rapid.IntRange(3, 8).Draw(rt, "nmsgs")
